@@ -63,8 +63,10 @@ func (impl Implementation) Dgels(trans blas.Transpose, m, n, nrhs int, a []float
 
 	// Quick return if possible.
 	if mn == 0 || nrhs == 0 {
-		impl.Dlaset(blas.All, max(m, n), nrhs, 0, 0, b, ldb)
-		work[0] = 1
+		work[0] = float64(max(1, minwrk))
+		if lwork != -1 {
+			impl.Dlaset(blas.All, max(m, n), nrhs, 0, 0, b, ldb)
+		}
 		return true
 	}
 
